@@ -115,6 +115,12 @@ class PhasePredictor(QTable):
 
         span_ends = self["tmid"] + self["span"] / 2
         index = np.searchsorted(span_ends.mjd, times.mjd)
+
+        # Float MJDs resolve only ~1 us: settle times next to a span end exactly
+        index = np.minimum(index, len(span_ends) - 1)
+        while np.any(late := times > span_ends[index]):
+            index = index + late
+
         dt = (times - self["tmid"][index]).to_value(u.s)
         return index, dt
 
